@@ -344,6 +344,11 @@ const (
 type Walker struct {
 	Visit func(ssa.Instruction) int
 	Edge  func(Lit) bool
+	// Stable lists atoms whose value cannot change while the function runs
+	// (the rule that sets it must justify that, e.g. by a who-may-store
+	// obligation). A path testing such an atom twice with opposite outcomes
+	// is infeasible and is not followed.
+	Stable []string
 }
 
 type Witness struct {
@@ -380,6 +385,7 @@ func (w *Witness) String(p *Prog) string {
 type wstate struct {
 	b    *ssa.BasicBlock
 	pred int
+	env  string // polarities recorded for the Stable atoms on this path
 }
 
 // Run returns a witness for the first hit, or nil when no hit is reachable.
@@ -392,8 +398,8 @@ func (w *Walker) Run(start Point) *Witness {
 	}
 	var items []item
 	seen := map[wstate]bool{}
-	push := func(b *ssa.BasicBlock, pred, from, parent int, lit *Lit) {
-		st := wstate{b, pred}
+	push := func(b *ssa.BasicBlock, pred, from, parent int, lit *Lit, env string) {
+		st := wstate{b, pred, env}
 		if from == 0 {
 			if seen[st] {
 				return
@@ -402,7 +408,7 @@ func (w *Walker) Run(start Point) *Witness {
 		}
 		items = append(items, item{st, from, parent, lit})
 	}
-	push(start.B, -1, start.I, -1, nil)
+	push(start.B, -1, start.I, -1, nil, "")
 	mkWitness := func(idx int, hit ssa.Instruction) *Witness {
 		wt := &Witness{Hit: hit}
 		for i := idx; i >= 0; i = items[i].parent {
@@ -465,22 +471,45 @@ func (w *Walker) Run(start Point) *Witness {
 					if constant.BoolVal(c.Value) != outcome {
 						continue // infeasible
 					}
-					push(s, predIdx(s), 0, qi, nil)
+					push(s, predIdx(s), 0, qi, nil, it.st.env)
 					continue
 				}
 				l := litOf(cond, outcome)
 				if w.Edge != nil && !w.Edge(l) {
 					continue
 				}
-				push(s, predIdx(s), 0, qi, &l)
+				env := it.st.env
+				if w.isStable(l.Atom) {
+					yes, no := "\x00"+l.Atom+"=T", "\x00"+l.Atom+"=F"
+					mine, other := yes, no
+					if !l.Pos {
+						mine, other = no, yes
+					}
+					if strings.Contains(env, other) {
+						continue // contradicts an earlier test of the same stable atom
+					}
+					if !strings.Contains(env, mine) {
+						env += mine
+					}
+				}
+				push(s, predIdx(s), 0, qi, &l, env)
 			}
 			continue
 		}
 		for _, s := range b.Succs {
-			push(s, predIdx(s), 0, qi, nil)
+			push(s, predIdx(s), 0, qi, nil, it.st.env)
 		}
 	}
 	return nil
+}
+
+func (w *Walker) isStable(atom string) bool {
+	for _, a := range w.Stable {
+		if a == atom {
+			return true
+		}
+	}
+	return false
 }
 
 // entry returns the entry point of a function.
